@@ -35,6 +35,9 @@ def witness_text(detail):
 def save(data):
     from fixed_entries import FIXED
     data["fixed"] = ["fixed: property=%s %s %s" % f for f in FIXED]
+    for e in data["findings"]:
+        if not e.get("described"):
+            e["what"] = ("%s fails; minimal witness: %s" % (e["signature"], witness_text(e["witness"])))[:420]
     data["findings"].sort(key=lambda e: (e["property"], e["signature"]))
     with open(PATH, "w") as f:
         json.dump(data, f, indent=1, ensure_ascii=False)
